@@ -215,7 +215,10 @@ type Terms struct {
 	// closure parent bindings: FreeVar -> bound value in the parent (when the anonymous function has
 	// exactly one MakeClosure site)
 	fvBind map[*ssa.FreeVar]ssa.Value
-	inprog map[ssa.Value]bool
+	// parameter bindings of single-call-site helpers that were folded into a caller's region: the
+	// parameter denotes the argument at that one call site (same idea as fvBind for closures)
+	paramBind map[*ssa.Parameter]ssa.Value
+	inprog    map[ssa.Value]bool
 	cg     *CallGraph // set after the call graph is built; used to decide whether a callee writes through a pointer argument
 }
 
@@ -224,7 +227,7 @@ type cellInfo struct {
 }
 
 func NewTerms(p *Program) *Terms {
-	t := &Terms{p: p, cache: map[ssa.Value]*Term{}, cells: map[*ssa.Alloc]*cellInfo{}, fvBind: map[*ssa.FreeVar]ssa.Value{}, inprog: map[ssa.Value]bool{}}
+	t := &Terms{p: p, cache: map[ssa.Value]*Term{}, cells: map[*ssa.Alloc]*cellInfo{}, fvBind: map[*ssa.FreeVar]ssa.Value{}, paramBind: map[*ssa.Parameter]ssa.Value{}, inprog: map[ssa.Value]bool{}}
 	count := map[*ssa.Function]int{}
 	var sites []*ssa.MakeClosure
 	for _, f := range p.ModFuncs {
@@ -550,6 +553,9 @@ func (ts *Terms) calleeName(c *ssa.CallCommon) (string, interface{}) {
 func (ts *Terms) build(v ssa.Value) *Term {
 	switch v := v.(type) {
 	case *ssa.Parameter:
+		if b, ok := ts.paramBind[v]; ok {
+			return ts.Of(b)
+		}
 		return &Term{Op: OpParam, Name: v.Name(), Obj: v, Fn: v.Parent()}
 	case *ssa.FreeVar:
 		if b, ok := ts.fvBind[v]; ok {
